@@ -197,7 +197,10 @@ def order(row: int, decl: int, meta: bool, prefix_row: int) -> bool:
     post: _
     """
     bom, codec, names = pick(ROWS, row)
-    meta_text = '<meta http-equiv="Content-Type" content="text/html; charset=cp1251">' if meta else ''
+    meta_ct = CFG.get('meta_ct', 'text/html')
+    if meta and decl == 0 and meta_ct == 'text/xml' and 'meta_declares_xml' in (CFG.get('exclude') or ()):
+        return _res(True)        # known finding: the meta element's content type also selects XML treatment
+    meta_text = ('<meta http-equiv="Content-Type" content="%s; charset=cp1251">' % meta_ct) if meta else ''
     text_body = '<html>' + meta_text + TEXT + '</html>'
     if decl == 0:
         text = text_body
